@@ -245,6 +245,24 @@ def is_empty_bytes(e):
     return False
 
 
+def strip_view(x):
+    """the value behind `&x`, `*x`, `x.clone()`, `x.as_ref()`, a cast: still the same value"""
+    while isinstance(x, tuple) and x:
+        if x[0] in ("ref", "deref", "cast"):
+            x = x[1]
+        elif x[0] in ("call", "pure") and short(x[1]) in ("clone", "as_ref", "borrow", "to_owned") and not x[1].endswith("}") and len(x[2]) == 1:
+            x = x[2][0]
+        else:
+            break
+    return x
+
+
+def is_some_payload_of(x, opt):
+    """x IS the value inside `opt` (its Some payload, through borrows / clones), not merely something computed from it"""
+    x = strip_view(x)
+    return isinstance(x, tuple) and x and x[0] == "field" and x[1][0] == "downcast" and x[1][2] == "Some" and strip_view(x[1][1]) == strip_view(opt)
+
+
 def mask_of(e):
     """K if e is a normal form of `(x & K) != 0`; ("inv", K) for `(x & K) == 0`."""
     e = strip_casts(e)
